@@ -214,6 +214,67 @@ func Instantiate(assume []*Term, goal *Term, cover bool) (qf []*Term, g *Term, n
 		nzIn = append(append([]*Term(nil), ground...), negateSplit(g)...)
 	}
 	nz := newNormalizer(nzIn)
+	// skolem-directed instances: loop invariants and their goals usually talk about the same index, so
+	// every quantified assumption is also instantiated at the goal's skolem constants (and +-1)
+	var skolems []*Term
+	if !cover {
+		seenSk := map[*Term]bool{}
+		var findSk func(t *Term)
+		visited := map[*Term]bool{}
+		findSk = func(t *Term) {
+			if visited[t] {
+				return
+			}
+			visited[t] = true
+			if t.Op == "var" && len(t.Name) > 3 && t.Name[:3] == "sk_" && !seenSk[t] {
+				seenSk[t] = true
+				skolems = append(skolems, t)
+			}
+			for _, a := range t.Args {
+				findSk(a)
+			}
+		}
+		findSk(g)
+	}
+	addInst := func(q *qfact, done map[*Term]bool, inst *Term, out *[]*Term) {
+		if done[inst] {
+			return
+		}
+		done[inst] = true
+		b := q.q.Bnd[0]
+		body := expandBounded(Subst(q.q.Args[0], map[*Term]*Term{b: inst}))
+		if hasQuant(body, memo) {
+			return
+		}
+		t := Implies(q.guard, body)
+		if nz.rewrite(t) == True {
+			return
+		}
+		*out = append(*out, t)
+		ninst++
+	}
+	if len(skolems) > 0 && len(skolems) <= 4 {
+		var extra []*Term
+		for _, q := range qts {
+			if len(q.f.q.Bnd) != 1 {
+				continue
+			}
+			b := q.f.q.Bnd[0]
+			for _, sk := range skolems {
+				if sk.Sort != b.Sort || sk.Sort.Kind != SBV {
+					continue
+				}
+				w := sk.Sort.Width
+				addInst(&q.f, q.done, sk, &extra)
+				addInst(&q.f, q.done, BVBin("bvadd", sk, BVU(1, w)), &extra)
+				addInst(&q.f, q.done, BVBin("bvsub", sk, BVU(1, w)), &extra)
+			}
+		}
+		for _, t := range extra {
+			ground = append(ground, t)
+			collectReads(t, seen, reads, nil)
+		}
+	}
 	for round := 0; round < 6; round++ {
 		var newTerms []*Term
 		for _, q := range qts {
